@@ -104,8 +104,14 @@ def run(ctx):
             if k1 != k2 or (k1 == "ok" and not same_value(v1, v2)) or (k1 == "exc" and type(v1) is not type(v2)):
                 ctx.violation("generation differs when sub-schemas are wrapped", policy=pol, plain=repr(v1),
                               wrapped=repr(v2), **{k: v for k, v in info.items() if k != "plain"}, plain_schema=repr(s))
-            elif k2 == "ok" and conforms.conforms(s, w) and validate(s, v1).has_errors() is False and validate(ws, v2).has_errors():
-                ctx.violation("a value generated from the wrapped tree is rejected by it", value=repr(v2), **info)
+            elif k2 == "ok":
+                try:
+                    rejected = conforms.conforms(s, w) and validate(s, v1).has_errors() is False and validate(ws, v2).has_errors()
+                except Exception:  # noqa: BLE001  (validate raising is C08's business)
+                    ctx.count("validate_raised")
+                    rejected = False
+                if rejected:
+                    ctx.violation("a value generated from the wrapped tree is rejected by it", value=repr(v2), **info)
         # 4. substitution succeeds / fails identically and results agree after erasing
         from ..substcorr import ellipsize, partial
         for v in vals[:6] + [..., ellipsize(w, ctx.rnd), partial(w, ctx.rnd), [...], {"a": ...}]:
